@@ -24,7 +24,7 @@ def run(tier, seed):
     rep.add_tv("force-space", "ForceTrace", scs, traces, tlc.validate_traces("ForceTrace", traces, batch_events=400), family=FAMILY)
     rep.nontrivial = sum(len(set(zip(s["xq"], s["yq"], s["z"]))) for s in scs)
     rep.extra["probe_values_compared"] = sum(len(s["xq"]) * 11 * 2 for s in scs)
-    rep.rule = ("8 x 7 global grids with random land, two bathymetry values, 2-3 levels, random legal sub-rectangles (also counted "
+    rep.rule = ("8 x 7 global grids with random land, two bathymetry values, 2-3 levels, three stretching curves (level spacings 10-60 m, weights in thirds and sixths as well as halves and quarters), random legal sub-rectangles (also counted "
                 "from the upper end), float or int16-packed storage, forward/reversed; ~40 quarter-cell probes per grid incl. cell "
                 "edges/corners and depths above, at, between, below the levels; non-trivial = distinct probes (position, depth) summed over grids")
     rep.assumptions = ["node values multiples of 24/1024 m/s with a mixed-radix formula (a wrong index or weight changes the integer)",
